@@ -30,8 +30,6 @@ import viewpipe
 import vlib
 from vlib import mc, tlc, try_cxx
 
-DEV = os.environ.get("VERIF_C11_DEV")   # development only: spec/harness taken from this directory
-
 CONFIGS_QUICK = [("g++", "c++11"), ("clang++", "c++17"), ("g++", "c++20")]
 CONFIGS_THOROUGH = [(c, s) for c in ("g++", "clang++") for s in ("c++11", "c++14", "c++17", "c++20", "c++2b")]
 NPROC = 10
@@ -52,8 +50,6 @@ def run_caps_tlc(wd):
     """model-check Caps.tla; returns (TLCResult, mutant results)"""
     d = os.path.join(wd, "mc")
     vlib.fresh_dir(d)
-    if DEV:
-        vlib.write(os.path.join(d, "Caps.tla"), vlib.read(os.path.join(DEV, "Caps.tla")))
     jobs = [("MC_Caps", "TRUE", "TRUE", "ASSUME TableLaws\nASSUME EmitTable\n"),
             ("MC_CapsNoCursorGuard", "FALSE", "TRUE", ""),
             ("MC_CapsNoConvGuard", "TRUE", "FALSE", "")]
@@ -209,11 +205,16 @@ def static_half(v, tier, seed, table, wd):
         else:
             chosen += rnd.sample(lst, 1)
 
+    written = set()
+    for (name, inc, g, sd), cfg, p in chosen:
+        src = os.path.join(sd, "neg", "c11_neg_%s_%d.cpp" % (name, p["id"]))
+        if src not in written:
+            written.add(src)
+            vlib.write(src, g.negative_tu(p))
+
     def neg_job(j):
         (name, inc, g, sd), cfg, p = j
         src = os.path.join(sd, "neg", "c11_neg_%s_%d.cpp" % (name, p["id"]))
-        if not os.path.exists(src):
-            vlib.write(src, g.negative_tu(p))
         ok, out = try_cxx(src, flags=flags(cfg), compiler=cfg[0], includes=[inc], syntax_only=True, name="c11neg-%s" % name)
         ok2 = True
         if p["id"] % 8 == 0:   # the same TU with the mutable instantiation must compile (the probe itself is well-formed)
@@ -234,6 +235,9 @@ def static_half(v, tier, seed, table, wd):
             hard_ok += 1
             soft_sigs["%s/%s" % (p["op"], p["path"])] = soft_sigs.get("%s/%s" % (p["op"], p["path"]), 0) + 1
 
+    for k, n in sorted(soft_sigs.items()):
+        vlib.log("C11 note: %s is rejected for const byte types by a hard error inside the call, not by overload resolution "
+                 "(%d negative compile tests failed as required)" % (k, n))
     for sig, lst in sorted(viol.items()):
         desc = lst[0][0] + ("\n  (+%d more cases of this class)" % (len(lst) - 1) if len(lst) > 1 else "")
         v.violation(sig, desc, lst[0][1])
@@ -277,7 +281,7 @@ def vectors_for(S, tier, seed, wd):
 def dynamic_half(v, tier, seed, wd):
     thorough = tier == "thorough"
     configs = CONFIGS_THOROUGH if thorough else CONFIGS_QUICK
-    src = os.path.join(DEV or vlib.HARNESS, "c11_readonly.cpp")
+    src = os.path.join(vlib.HARNESS, "c11_readonly.cpp")
     evals = 0
     images = 0
     samples = []
